@@ -6,7 +6,7 @@ from hexlib import _nib
 from trie.iter import NodeIterator
 
 ID = "C10"
-LEAN_IMPORTS = ["PyTrie.Props.C10", "PyTrie.Props.C10Raw", "PyTrie.Props.RawLevel", "PyTrie.Props.NonVacuity2"]
+LEAN_IMPORTS = ["PyTrie.Props.C10", "PyTrie.Props.C10Raw", "PyTrie.Props.RawLevel", "PyTrie.Props.NonVacuity2", "PyTrie.Props.NonVacuity8"]
 THEOREMS = [
     "PyTrie.Props.C10.plt_nibs",
     "PyTrie.Props.C10.stored_path_is_key",
@@ -23,6 +23,9 @@ THEOREMS = [
     "PyTrie.Props.C10.raw_nodes_is_preorder",
     "PyTrie.Props.C10.raw_nodes_loop_partial",
     "PyTrie.Props.C10.raw_nodes_partial",
+    "PyTrie.Props.NonVacuity8.nodes_preorder_witness",
+    "PyTrie.Props.NonVacuity8.nodes_preorder_eval",
+    "PyTrie.Props.NonVacuity8.nodes_partial_witness",
     "PyTrie.Props.Raw.next_key_refines",
     "PyTrie.Props.Raw.key_after_refines",
     "PyTrie.Props.NonVacuity2.next_key_witness",
